@@ -45,6 +45,16 @@ Theorem C08_id_injective : forall r c r' c', r < 26 -> r' < 26 ->
 Proof. exact well_id_injective. Qed.
 Print Assumptions C08_id_injective.
 
+(** the canonical-id decomposition used by [indices] / [positions] inverts the id map, and accepts
+    nothing but canonical ids ("A1", "a01", "A001" are not keys) *)
+Theorem C08_id_rc : forall r c, r < 26 -> id_rc (well_id r c) = Some (r, c).
+Proof. exact id_rc_well_id. Qed.
+Print Assumptions C08_id_rc.
+
+Theorem C08_id_rc_inv : forall s r c, id_rc s = Some (r, c) -> s = well_id r c /\ r < 26.
+Proof. exact id_rc_inv. Qed.
+Print Assumptions C08_id_rc_inv.
+
 (** the [wells] table holds exactly these ids, and [indices] knows exactly the ids of the table *)
 Theorem C08_tables : forall g r c, r < n_row_ids g -> c < g_cols g ->
   nth c (nth r (wells_table g) []) EmptyString = well_id r c.
@@ -57,6 +67,13 @@ Theorem C08_index_domain : forall g s rc, well_index g s = Some rc ->
 Proof. exact well_index_domain. Qed.
 Print Assumptions C08_index_domain.
 
+(** [indices] is defined exactly on the entries of the [wells] table *)
+Theorem C08_index_defined_iff : forall g s,
+  (exists rc, well_index g s = Some rc) <->
+  (exists r c, r < n_row_ids g /\ c < g_cols g /\ s = well_id r c).
+Proof. exact well_index_defined_iff. Qed.
+Print Assumptions C08_index_defined_iff.
+
 (** make_well_array / make_well_index_dict agree with the labware tables *)
 Theorem C08_helpers : forall R C,
   make_well_array R C = wells_table (plate R C) /\
@@ -67,4 +84,10 @@ Print Assumptions C08_helpers.
 Example C08_example :
   evo_position (trough 4 2) "C02" = Ok 7 /\ fluent_position (trough 4 2) "C02" = Ok 2 /\
   evo_position (plate 8 12) "H12" = Ok 96 /\ well_index (plate 8 12) "A1" = None.
+Proof. vm_compute. repeat split. Qed.
+
+Example C08_example_ids :
+  well_id 7 11 = "H12"%string /\ well_id 2 99 = "C100"%string /\ id_rc "C100" = Some (2, 99) /\
+  id_rc "A1" = None /\ id_rc "A001" = None /\ parse_id "C100" = Some ("C"%string, 100%N) /\
+  n_row_ids (plate 8 12) = 8 /\ n_row_ids (trough 4 2) = 4.
 Proof. vm_compute. repeat split. Qed.
